@@ -1,6 +1,7 @@
 package props
 
 import (
+	"math"
 	"fmt"
 	"strconv"
 	"strings"
@@ -116,7 +117,18 @@ func runC04(r *core.Run) {
 			kg = []colGen{genKeyHostile, genKeyText}
 			kind = "hostile"
 		}
-		t := genTable(r, "t", []string{"id", "k1", "k2", "v"}, []colGen{genID, kg[0], kg[1], genHalf}, n)
+		vgen := colGen(genHalf)
+		mixed := rng.Intn(3) == 0
+		if mixed {
+			// a measurement column with entries that are not numbers: they count as values, not as numbers
+			vgen = func(r *core.Run, row int) (string, bool) {
+				if r.Rand.Intn(7) == 0 {
+					return []string{"n/a", "-", "x", "yes"}[r.Rand.Intn(4)], false
+				}
+				return genHalf(r, row)
+			}
+		}
+		t := genTable(r, "t", []string{"id", "k1", "k2", "v"}, []colGen{genID, kg[0], kg[1], vgen}, n)
 		u := genTable(r, "u", []string{"id", "k1", "k2", "v"}, []colGen{genID, kg[0], kg[1], genHalf}, []int{0, 1, 3, 20, 170}[rng.Intn(5)])
 		if c%11 == 3 {
 			// the rows whose internal keys would collide if text were not delimited safely
@@ -157,7 +169,7 @@ func runC04(r *core.Run) {
 			rankStrings(keys, res)
 			add(sql, "bucket:distinct:"+kind, cpu, map[string]interface{}{"kind": "distinct", "keys": keys, "res": cellsJSON(res)}, t.Rows)
 		case 1: // GROUP BY with aggregates
-			sql := "SELECT " + kcols + ", COUNT(*) AS c, COUNT(v) AS cv, SUM(v) AS s, MIN(v) AS mn, MAX(v) AS mx FROM t GROUP BY " + kcols
+			sql := "SELECT " + kcols + ", COUNT(*) AS c, COUNT(v) AS cv, SUM(v) AS s, MIN(v) AS mn, MAX(v) AS mx, AVG(v) AS av FROM t GROUP BY " + kcols
 			res, _, e := x.query(sql + ";")
 			if e != "" {
 				if !errRep[e] {
@@ -191,7 +203,20 @@ func runC04(r *core.Run) {
 				mn2, ok2 := half2(row[nk+3])
 				mx2, ok3 := half2(row[nk+4])
 				g["hassum"] = ok1
-				if ok1 != ok2 || ok1 != ok3 {
+				g["mixed"] = mixed
+				// AVG as a rational: for every possible number q of numeric cells, twice the average times q (exact if integral)
+				avq := make([]map[string]interface{}, 15)
+				for q := 1; q <= 15; q++ {
+					avq[q-1] = map[string]interface{}{"ok": false, "v": 0}
+					if f, err := strconv.ParseFloat(row[nk+5].T, 64); err == nil && !row[nk+5].N {
+						x := f * 2 * float64(q)
+						if math.Abs(x-math.Round(x)) < 1e-6 && math.Abs(x) < 1e8 {
+							avq[q-1] = map[string]interface{}{"ok": true, "v": int(math.Round(x))}
+						}
+					}
+				}
+				g["avq"], g["hasavg"] = avq, !row[nk+5].N
+				if !mixed && (ok1 != ok2 || ok1 != ok3) {
 					bad = fmt.Sprintf("SUM/MIN/MAX disagree on NULL: %q %q %q", row[nk+2].T, row[nk+3].T, row[nk+4].T)
 				}
 				g["sum2"], g["min2"], g["max2"] = s2, mn2, mx2
